@@ -362,6 +362,8 @@ class CallMixin:
                 e[a] = SOldNS()
             elif a in env:
                 e[a] = env[a]
+            elif a in self.d.contract.globals:
+                e[a] = self.mod_lookup(self.d.mod, a)
             else:
                 raise Unsupported(f'contract function parameter {a} not bound')
         fr = Frame(e, self.d.spec_mod_of(fn))
